@@ -20,6 +20,9 @@
 //!   tabix, SAM.gz+CSI, FASTA.gz+fai+gzi, CRAM+crai) over `ChunkReader` (Read + Seek): Interrupted before every
 //!   read, Interrupted / a short transfer at exactly the k-th read call for every k, 1-byte and irregular reads;
 //!   the driver retries Interrupted as std's helpers do; the log must equal the one over the plain source.
+//! * `eof_calls` — Interrupted in place of every read call that observes the end of the input (documents and
+//!   indexes, every api, direct and BufReader 1 / 17 / 8192): the transfer menus above only decide calls that
+//!   deliver bytes.
 //! * `uniform`  — OneByte / InterruptEvery / Irregular / a fixed pattern, over every wrapper, including the
 //!   > 64 KiB documents.
 
@@ -107,6 +110,55 @@ impl<R: BufRead> BufRead for LogBuf<R> {
     fn consume(&mut self, amt: usize) {
         self.log.lock().unwrap().push(usize::MAX - amt);
         self.inner.consume(amt)
+    }
+}
+
+/// A `Read` over a byte slice that answers `Interrupted` (once) in place of chosen end-of-input observations: the
+/// `target`-th read call that would return `Ok(0)` for a non-empty buffer (`None`: every one). The vmc adversaries
+/// decide only calls that transfer bytes; the calls that detect the end of the input are decided here.
+struct EofInterrupt {
+    data: Arc<Vec<u8>>,
+    pos: usize,
+    target: Option<usize>,
+    /// End-of-input observations delivered so far (calls that returned Ok(0)).
+    eof_seen: usize,
+    just_injected: bool,
+    /// One entry per read call: bytes transferred, 0 = Ok(0) at the end, usize::MAX = Interrupted.
+    log: Arc<Mutex<Vec<usize>>>,
+}
+
+impl EofInterrupt {
+    fn new(data: Arc<Vec<u8>>, target: Option<usize>) -> Self {
+        Self { data, pos: 0, target, eof_seen: 0, just_injected: false, log: Arc::new(Mutex::new(Vec::new())) }
+    }
+}
+
+impl Read for EofInterrupt {
+    fn read(&mut self, buf: &mut [u8]) -> io::Result<usize> {
+        if buf.is_empty() {
+            return Ok(0);
+        }
+        let n = (self.data.len() - self.pos).min(buf.len());
+        if n > 0 {
+            buf[..n].copy_from_slice(&self.data[self.pos..self.pos + n]);
+            self.pos += n;
+            self.log.lock().unwrap().push(n);
+            return Ok(n);
+        }
+        let inject = !self.just_injected
+            && match self.target {
+                None => true,
+                Some(t) => t == self.eof_seen,
+            };
+        if inject {
+            self.just_injected = true;
+            self.log.lock().unwrap().push(usize::MAX);
+            return Err(io::Error::from(io::ErrorKind::Interrupted));
+        }
+        self.just_injected = false;
+        self.eof_seen += 1;
+        self.log.lock().unwrap().push(0);
+        Ok(0)
     }
 }
 
@@ -955,6 +1007,90 @@ fn main() {
                     format!("the query log over the plain source; line {at}: {}", short(a)),
                     format!("line {at}: {}", short(b)),
                 ))
+            });
+        }
+
+        // ---- eof_calls: Interrupted at the read calls that OBSERVE THE END of the input (the call that returns 0,
+        //      and every later probe), which the byte-transfer menus of choose / deviate never reach: for every
+        //      document and index, api and wrapper {direct, BufReader 1 / 17 / 8192}, Interrupted in place of the
+        //      e-th end-of-input observation for every e of the fault-free run, and before every one of them.
+        {
+            struct Row {
+                doc: usize,
+                api: Api,
+                wrap: Wrap,
+                n_eof: usize,
+            }
+            let mut rows: Vec<Row> = Vec::new();
+            for (i, d) in docs.iter().enumerate() {
+                if d.big {
+                    continue;
+                }
+                let mut wraps = vec![Wrap::Buf(1), Wrap::Buf(17), Wrap::Buf(8192)];
+                if !d.format.needs_bufread() {
+                    wraps.insert(0, Wrap::Direct);
+                }
+                for &api in Api::all_for(d.format) {
+                    for &w in &wraps {
+                        let src = EofInterrupt::new(d.bytes.clone(), Some(usize::MAX));
+                        let log = src.log.clone();
+                        let _ = vnd::read_log(d.format, src, &opts(d, api, w));
+                        let n_eof = log.lock().unwrap().iter().filter(|&&x| x == 0).count();
+                        rows.push(Row { doc: i, api, wrap: w, n_eof });
+                    }
+                }
+            }
+            let mut starts = Vec::new();
+            let mut total = 0usize;
+            for r in &rows {
+                starts.push(total);
+                total += r.n_eof + 1;
+            }
+            ctx.extra("eof_calls", vmc::json!({"rows": rows.len(), "cases": total, "max_end_of_input_observations_per_run": rows.iter().map(|r| r.n_eof).max(), "runs_without_an_end_of_input_observation": rows.iter().filter(|r| r.n_eof == 0).count()}));
+            let (docs, rows, starts, spec) = (&docs, &rows, &starts, &spec);
+            ctx.harness(Config::new("eof_calls", 0), move |ch: &Chooser| -> Outcome {
+                let i = ch.free("case", total);
+                let r = starts.partition_point(|&s| s <= i) - 1;
+                let row = &rows[r];
+                let j = i - starts[r];
+                let d = &docs[row.doc];
+                let target = if j < row.n_eof { Some(j) } else { None };
+                let name = match target {
+                    Some(e) => format!("Interrupted in place of end-of-input observation {e} (of {} in the fault-free run), then the call is answered normally", row.n_eof),
+                    None => "Interrupted before every end-of-input observation".to_string(),
+                };
+                ch.desc(|| format!("doc={} api={:?} wrap={} {name}", d.name, row.api, row.wrap.name()));
+                let src = EofInterrupt::new(d.bytes.clone(), target);
+                let env = src.log.clone();
+                let log = vnd::read_log(d.format, src, &opts(d, row.api, row.wrap));
+                let env = env.lock().unwrap().clone();
+                ch.obs_hash((row.doc, row.api, row.wrap, &env));
+                ch.steps(env.len() as u64);
+                if env.contains(&usize::MAX) {
+                    ch.tag("Interrupted delivered at an end-of-input observation");
+                }
+                match compare(&spec[&(row.doc, row.api)], &log) {
+                    None => Ok(()),
+                    Some((symptom, exp, obs)) => {
+                        let calls: Vec<String> = env.iter().rev().take(6).rev().map(|&x| if x == usize::MAX { "I".to_string() } else { x.to_string() }).collect();
+                        Err(Violation::new(
+                            format!("format={} api={:?} adversary=interrupted-at-end-of-input symptom={symptom}", d.format, row.api),
+                            format!(
+                                "doc={} ({} bytes, set {}) api={:?} wrap={} ({}): {name}; last read calls (bytes, 0 = end of input, I = Interrupted): … {}; bytes (hex): {}",
+                                d.name,
+                                d.bytes.len(),
+                                d.set,
+                                row.api,
+                                row.wrap.name(),
+                                row.wrap.class(),
+                                calls.join(" "),
+                                if d.bytes.len() <= 1600 { hex_full(&d.bytes) } else { vmc::hex(&d.bytes) }
+                            ),
+                            format!("same log as from the plain slice (Interrupted means: call again); {exp}"),
+                            obs,
+                        ))
+                    }
+                }
             });
         }
 
